@@ -106,7 +106,7 @@ static void c15_batch(long idx, long n, uint64_t seed) {
         Rng r(seed);
         RawServer srv; srv.start();
         int threads = r.range(1, 4), maxConn = r.range(1, 8), nreq = r.range(1, 64);
-        int scenario = (int)((n + g_opts.shard) % 10);   // 0 only answering behaviours, 1 with never-answered + time-outs, 2 with late answers, 3 close-after mix,
+        int scenario = (int)((n + g_opts.shard) % 11);   // 0 only answering behaviours, 1 with never-answered + time-outs, 2 with late answers, 3 close-after mix,
                                        // 4 answered requests that carry a time-out followed by slow requests without one,
                                        // 5 a response and the expiry of a time-out reaching the client in ONE poll result (see below)
                                        // 6 requests to a host whose connect() fails on the spot, queued together with requests that need new connections to
@@ -121,6 +121,8 @@ static void c15_batch(long idx, long n, uint64_t seed) {
         if (scenario == 6 && !deadHostWorks) { scenario = 0; count("dead_host_scenario_not_applicable_here"); }
         if (scenario == 6) { threads = 1; maxConn = r.range(3, 8); nreq = r.range(6, 20); }
         if (scenario == 7) { threads = 1; maxConn = 2; nreq = 520; }
+        if (scenario == 10) { threads = 1; maxConn = 1; nreq = 3; }   // 10 one client, TWO hosts, one connection each: a slow request occupies host A's connection with three more queued behind it, a quicker one
+                                                                      //    occupies host B's with three queued; when B's connection is released A is still saturated - B's queue must be served all the same
         if (scenario == 9) { threads = 1; maxConn = 1; nreq = 3; }   // 9 a long run of time-outs on ONE connection: 140 requests (time-out 20 ms) that the server never answers, one after the other, each has to be
                                                                       //   rejected; then answered requests on that connection have to be fulfilled (whatever the connection keeps per time-out must not run out)
         if (scenario == 8) { threads = 1; maxConn = 2; nreq = 4; }
@@ -134,7 +136,7 @@ static void c15_batch(long idx, long n, uint64_t seed) {
         // application threads issuing the batch: 1, or several released together (the pool is then claimed concurrently by the
         // issuers and by the I/O threads handing queued requests over)
         int issuers = r.chance(2, 5) ? r.range(2, 6) : 1;
-        if (scenario == 5 || scenario == 6 || scenario == 7 || scenario == 8 || scenario == 9) issuers = 1;
+        if (scenario >= 5) issuers = 1;
         cfg += " issuers=" + std::to_string(issuers);
         set_case(idx, Json().num("i", idx).str("phase", "c15").str("config", cfg).done());
         std::vector<int> params((size_t)nreq); std::vector<std::string> bodies((size_t)nreq); std::vector<int> pauseAfter((size_t)nreq, -1); std::vector<char> dead((size_t)nreq, 0), lenient((size_t)nreq, 0); std::atomic<int> ioBusy{0};
@@ -165,7 +167,7 @@ static void c15_batch(long idx, long n, uint64_t seed) {
                 if (k == 0) { b = B_DELAYED; param = 10596; to = 0; } else if (k <= 3) { b = B_LATE; param = 599; to = 200; } else { b = B_IMMEDIATE; param = 5; to = 0; }
                 beh[(size_t)k] = b;
             }
-            if (scenario == 7 || scenario == 9) { b = B_IMMEDIATE; param = 0; to = 0; beh[(size_t)k] = b; }
+            if (scenario == 7 || scenario == 9 || scenario == 10) { b = B_IMMEDIATE; param = 0; to = 0; beh[(size_t)k] = b; }
             if (scenario == 8) {
                 // 0: answered after 100 ms, its continuation keeps the I/O thread for 400 ms.  1 (R): answered after 150 ms, time-out 300 ms, on the
                 // second connection.  2 (F) and 3 (Q) are issued while the thread is held: F is answered after 1 s, Q (time-out 200 ms) never.
@@ -175,7 +177,7 @@ static void c15_batch(long idx, long n, uint64_t seed) {
             timeoutMs[(size_t)k] = to; params[(size_t)k] = param;
             if (r.chance(1, 3)) { int bl = r.range(1, 300); for (int j = 0; j < bl; j++) bodies[(size_t)k] += (char)r.below(256); }
             if (r.chance(1, 6)) pauseAfter[(size_t)k] = r.range(0, 3);
-            if (scenario == 6 || scenario == 7 || scenario == 8 || scenario == 9) { pauseAfter[(size_t)k] = -1; if (scenario != 6) bodies[(size_t)k].clear(); }
+            if (scenario >= 6) { pauseAfter[(size_t)k] = -1; if (scenario != 6) bodies[(size_t)k].clear(); }
         }
         auto build = [&](int k) {
             int b = beh[(size_t)k], param = params[(size_t)k], to = timeoutMs[(size_t)k]; const std::string& bodyIn = bodies[(size_t)k];
@@ -246,6 +248,35 @@ static void c15_batch(long idx, long n, uint64_t seed) {
                 if (!(o->fulfilled.load() + o->rejected.load())) break; count("timeouts_in_a_row_on_one_connection"); }
             for (int j = 0; j < 3 && allSettled(); j++) { int k = nreq++; out.emplace_back(new Outcome()); beh.push_back(B_IMMEDIATE); timeoutMs.push_back(0); issue(k, B_IMMEDIATE, 0);
                 double e9 = lv::now() + 5.0 * lf; while (!allSettled() && lv::now() < e9) lv::msleep(2); }
+        }
+        if (scenario == 10 && allSettled()) {
+            RawServer srv2; srv2.start(); std::string base2 = "http://127.0.0.1:" + std::to_string(srv2.port);
+            struct O2 { int id; std::string host; int role; std::unique_ptr<Outcome> o; };   // role: 0 the slow host's never-answered request, 1 queued behind it, 2 the quick host's requests
+            std::vector<O2> o2;
+            auto issue2 = [&](const std::string& b0, int id, int bh, int param, int to, int role) { o2.push_back({id, b0, role, std::unique_ptr<Outcome>(new Outcome())}); Outcome* o = o2.back().o.get();
+                try { auto rb = client.get(b0 + "/t/" + std::to_string(id) + "/" + std::to_string(bh) + "/" + std::to_string(param)); if (to) rb.timeout(std::chrono::milliseconds(to));
+                      rb.send().then([o](Http::Response resp) { int t = -1; sscanf(resp.body().c_str(), "tag=%d;", &t); o->tag = t; o->status = (int)resp.code(); o->at = lv::now(); o->fulfilled++; }, [o](std::exception_ptr) { o->at = lv::now(); o->rejected++; }); }
+                catch (const std::exception& e) { o->err = e.what(); o->at = lv::now(); o->rejected++; } };
+            for (int round = 0; round < 2; round++) {   // (both assignments of the roles: which host's queue the client looks at first is a matter of hashing)
+                const std::string& slow = round == 0 ? base2 : base; const std::string& quick = round == 0 ? base : base2; int id0 = 100000 + round * 100; size_t first = o2.size();
+                // the slow host never answers its first request (client time-out 5 s): its only connection stays taken, two more requests wait behind it
+                issue2(slow, id0, B_NEVER, 0, 5000, 0); for (int k = 1; k <= 2; k++) issue2(slow, id0 + k, B_IMMEDIATE, 0, 0, 1);
+                issue2(quick, id0 + 10, B_DELAYED, 10250, 0, 2); for (int k = 1; k <= 3; k++) issue2(quick, id0 + 10 + k, B_IMMEDIATE, 0, 0, 2);
+                double e10 = lv::now() + 12.0 * lf; auto all2 = [&] { for (size_t q = first; q < o2.size(); q++) if (!(o2[q].o->fulfilled.load() + o2[q].o->rejected.load())) return false; return true; };
+                while (!all2() && lv::now() < e10) lv::msleep(5);
+                // judged by the ORDER of events, not by a duration: every request to the quick host is fulfilled before the slow host's request times out
+                double slowEnd = o2[first].o->at.load();
+                for (size_t q = first; q < o2.size(); q++) { std::string key; Outcome& o = *o2[q].o; const O2& e = o2[q];
+                    if (o.fulfilled.load() + o.rejected.load() > 1) key = "c15:settled-twice:two-hosts";
+                    else if (e.role == 0) { if (o.fulfilled.load()) key = "c15:fulfilled-without-answer:two-hosts"; }
+                    else if (!o.fulfilled.load() && !o.rejected.load()) key = "c15:request-never-sent-and-never-settled:two-hosts";
+                    else if (o.rejected.load()) key = "c15:answered-but-not-fulfilled:two-hosts";
+                    else if (o.tag.load() != e.id) key = "c15:wrong-response:two-hosts";
+                    else if (e.role == 2 && slowEnd > 0 && o.at.load() > slowEnd) key = "c15:request-held-back-until-another-hosts-connection-was-free:two-hosts";
+                    if (!key.empty()) { viol(key, cfg + ": request " + std::to_string(e.id) + " to " + e.host + ": " + key.substr(4) + " (one client, two hosts, one connection each; the other host's connection is taken by a request that is never answered)", Json().num("i", idx).str("config", cfg).num("request", e.id).str("host", e.host).num("role", e.role).num("fulfilled", o.fulfilled.load()).num("rejected", o.rejected.load()).num("tag_received", o.tag.load()).done()); break; }
+                    count("two_host_requests"); }
+            }
+            srv2.shutdown();
         }
         // second wave: once the batch has drained, further requests through the same client must still be served
         // (connections handed back to the pool, nothing left claimed)
@@ -391,7 +422,7 @@ static void run_c15(long cases) {
     for (long n = 0; n < cases; n++) {
         long idx = g_opts.shard * 100000L + n;
         uint64_t seed = r.next();
-        int scenario = (int)((n + g_opts.shard) % 10);
+        int scenario = (int)((n + g_opts.shard) % 11);
         pid_t pid = fork();
         if (pid == 0) { c15_batch(idx, n, seed); _exit(0); }
         double end = lv::now() + 25.0 * lv::load_factor(); int status = 0; bool exited = false;
